@@ -13,6 +13,7 @@ import (
 	"github.com/enbility/spine-go/internal/verifh/world"
 	"github.com/enbility/spine-go/model"
 	"github.com/enbility/spine-go/spine"
+	"github.com/enbility/spine-go/util"
 )
 
 // History part of C12: sequences of writes, verdicts (a callback may answer more than once), the approval
@@ -31,6 +32,7 @@ type apWorld struct {
 	used     map[int]bool         // counters used on the current connection
 	answered map[string]bool      // "cb/k": the callback has given its verdict on write k of the current connection
 	val      int                  // model: value id stored
+	ent2gone bool
 }
 
 //go:norace
@@ -126,10 +128,24 @@ func (a *apWorld) apply(op string, judge bool) (viol []string, digest string, ef
 		}
 		a.pending = map[int]map[int]bool{}
 		rt.Advance(time.Minute)
+	case "entrm2":
+		// the peer announces the removal of ANOTHER of its entities: the pending writes of entity [1] are independent of it
+		if a.conn && !a.ent2gone {
+			effect = true
+			a.ent2gone = true
+			st := model.NetworkManagementStateChangeTypeRemoved
+			cmd := model.CmdType{
+				Function:                            util.Ptr(model.FunctionTypeNodeManagementDetailedDiscoveryData),
+				Filter:                              []model.FilterType{*model.NewFilterTypePartial()},
+				NodeManagementDetailedDiscoveryData: pe.DiscoveryData([]world.EntSpec{{Addr: []uint{2}, Type: model.EntityTypeTypeCEM}}, false, &st),
+			}
+			pe.Deliver(pe.Datagram(pe.NM(), world.LocalNM(), model.CmdClassifierTypeNotify, false, nil, cmd))
+		}
 	case "disc":
 		if a.conn {
 			effect = true
 			a.conn = false
+			a.ent2gone = false
 			a.pending = map[int]map[int]bool{}
 			a.w.L.RemoveRemoteDeviceConnection("A")
 		}
@@ -183,7 +199,7 @@ func (a *apWorld) key() string {
 		ms = append(ms, "answered "+k)
 	}
 	sort.Strings(ms)
-	return fmt.Sprintf("%s conn=%v val=%s shown=%v used=%v timers=%d", s[:strings.Index(s, " cbs=")], a.conn, world.JSON(a.f.DataCopy(fnLimit)), ms, us, rt.PendingTimers())
+	return fmt.Sprintf("%s conn=%v ent2gone=%v val=%s shown=%v used=%v timers=%d", s[:strings.Index(s, " cbs=")], a.conn, a.ent2gone, world.JSON(a.f.DataCopy(fnLimit)), ms, us, rt.PendingTimers())
 }
 
 func c12Drivers(thorough bool) []*engine.HDriver {
@@ -197,7 +213,7 @@ func c12Drivers(thorough bool) []*engine.HDriver {
 				alpha = append(alpha, fmt.Sprintf("ap:%d:%d", cb, k), fmt.Sprintf("dn:%d:%d", cb, k))
 			}
 		}
-		alpha = append(alpha, "fire", "disc", "reconn")
+		alpha = append(alpha, "fire", "disc", "reconn", "entrm2")
 		return &engine.HDriver{Name: fmt.Sprintf("approval-histories callbacks=%d writes=%d", n, writes), Alphabet: alpha,
 			Step: func(hist []string, op string) engine.HStep {
 				a := newAPWorld(n)
